@@ -120,6 +120,19 @@ def emission_hook(w, st, node, name, recv, args):
         if prot is None:
             prot = Sym("self.protected@%d" % st.notes.get("ep:protected", 0), "bool")
         ev = {"kind": name, "node": node, "args": list(args), "protected": prot}
+        # what is known, at this point of the path, about the register / cctmp ownership flags
+        know = {}
+        for fld in ("acc_in_use", "tmp_in_use", "saved_y"):
+            v = st.env.get("self." + fld)
+            if isinstance(v, Const):
+                know[fld] = {v.v}
+            else:
+                kk = "self.%s@%d" % (fld, st.notes.get("ep:" + fld, 0))
+                a, e2 = st.cons.get(kk, (None, frozenset()))
+                know[fld] = set(a) if a is not None else ({True, False} - set(e2))
+        ev["know"] = know
+        ev["ver"] = {fld: st.notes.get("ep:" + fld, 0) for fld in ("acc_in_use", "tmp_in_use", "saved_y")}
+        ev["assigned"] = {fld: isinstance(st.env.get("self." + fld), Const) for fld in ("acc_in_use", "tmp_in_use", "saved_y")}
         if name == "sasm_protected":
             ev["protected"] = Const(True)
         st.events.append(ev)
